@@ -70,7 +70,7 @@ REAL = ["pydcop.algorithms.dpop", "pydcop.dcop.relations", "pydcop.dcop.objects"
 STUB = ["Agent", "Messaging", "transport", "discovery (replaced by compsim FIFO channel model)"]
 ASSUMPTIONS = ["channels are reliable and FIFO per (sender, destination) as in every shipped transport",
                "ground-truth optimum by brute force over <= 2500 assignments",
-               "float costs are multiples of 0.25, compared with relative tolerance 1e-9"]
+               "every generated cost is an int or a multiple of 0.25, so sums are exact in float64 and costs are compared exactly"]
 LEVEL = "exploration"
 LEVEL_TEXT = ("Seeded search over DCOP instances x start orders x per-channel-FIFO delivery "
               "orders of the real DpopAlgo computations in a discrete-event simulator; the "
